@@ -1,6 +1,8 @@
 """C06 - the C and LLVM back ends implement the same kernel (and both agree with the IR)."""
 from __future__ import annotations
 
+import json
+
 import pickle
 import struct
 
@@ -8,6 +10,7 @@ from hypothesis import strategies as st
 
 from .. import bridge
 from .. import cases as C
+from .. import exprs as X
 from .. import gen, kcheck, kprops
 from ..machine import Interp, Machine, Ptr, TensorStruct, Trap
 from ..native.cbatch import Batch, syntax_check
@@ -117,6 +120,26 @@ def kernel_cases(draw, tier):
                               value_class=draw(st.sampled_from(["general", "exact"])),
                               sparse_output_bias=draw(st.booleans()), min_dim=1))
     c["capacity"] = draw(st.sampled_from([1, 2, None]))
+    if draw(st.integers(0, 4)) == 0:
+        # identity / annihilator literals (x * 0, 0 + x, x * 1.0, x - 0 ...): what an optimiser removes is not exact on
+        # IEEE doubles (-3.0 * 0 is -0.0), so routes that optimise differently disagree in the bit pattern
+        def wrap(t):
+            lit = draw(st.sampled_from([["i", 0], ["i", 0], ["i", 1], ["f", "0.0"], ["f", "1.0"]]))
+            op = draw(st.sampled_from("**+-"))
+            return [op, t, lit] if (op == "-" or draw(st.booleans())) else [op, lit, t]
+
+        def rec(t):
+            if X.is_leaf(t):
+                return wrap(t) if (t[0] == "t" and draw(st.integers(0, 2)) == 0) else t
+            return [t[0], rec(t[1]), rec(t[2])]
+
+        tree = rec(c["expr"])
+        if draw(st.booleans()):
+            tree = wrap(tree)
+        keep = c.get("capacity")
+        c = kcheck.with_tree(c, tree)
+        c["capacity"] = keep
+        c["identity_literals"] = True
     return c
 
 
@@ -228,7 +251,21 @@ def process_kernel_batch(cases, stats, worker, sanitize=True, cc="clang-14"):
         except Trap as t:
             stats.add(case, result([], labels | {f"machine-trap-skipped:{t.kind}"}, False, kcheck.case_id(case), None))
             continue
-        batch.add(n, case, mod)
+        # the C under test is the text the public generate_code() returns (what the CLI prints), not a private printing
+        # of the module the harness built; the abstract machine runs the module, the LLVM worker goes through
+        # TensorMethod for evaluate - three routes to 'the same kernel', as the property has it
+        try:
+            ctext = bridge.public_code(case, ("evaluate", "assemble", "compute"), "c", capacity=case.get("capacity"))
+        except bridge.HarnessError:
+            raise
+        except Exception as e:  # noqa: BLE001
+            stats.add(case, result([fail(f"generate_code-raises:{type(e).__name__}", kprops.ctx_desc(case))], labels, False, kcheck.case_id(case), None))
+            continue
+        if ctext is None:
+            stats.add(case, result([fail("generate_code-refuses-what-generate_module-builds", kprops.ctx_desc(case))], labels, False,
+                                   kcheck.case_id(case), None))
+            continue
+        batch.add(n, case, mod, c_text=ctext)
         prepared.append((n, case, mod, fns, mout, labels))
     if not prepared:
         return
@@ -249,7 +286,7 @@ def process_kernel_batch(cases, stats, worker, sanitize=True, cc="clang-14"):
                 fails.append(fail(f"c-runtime:{(cr or {}).get('status')}", f"{d}: {log}"))
                 cr = None
         # ---- LLVM
-        rep = worker.call({"op": "llvm_kernels", "case": case, "kinds": ["evaluate", "assemble", "compute"]})
+        rep = worker.call({"op": "llvm_kernels", "case": case, "kinds": ["evaluate", "assemble", "compute"], "public_evaluate": True})
         if "crash" in rep:
             fails.append(fail("llvm-crash", f"{d}: {rep['crash']}"))
             rep = None
@@ -295,6 +332,19 @@ def process_kernel_batch(cases, stats, worker, sanitize=True, cc="clang-14"):
                 lo = llvm_output(rep, tag)
                 if not same(lo, mo, wv):
                     fails.append(fail(f"llvm-differs-from-ir:{tag}", f"{d}: LLVM {lo} vs machine {mo}"))
+        if rep is not None:
+            # evaluate as a user gets it (TensorMethod's own module) against the direct execution of the IR
+            if "public_evaluate_raised" in rep:
+                fails.append(fail("tensor-method-raises", f"{d}: {rep['public_evaluate_raised']}"))
+            elif "evaluate_public" in rep["out"]:
+                comparisons += 1
+                if rep.get("guard_zones_overwritten_public"):
+                    fails.append(fail("llvm-writes-past-allocation", f"{d}: evaluate through TensorMethod: {rep['guard_zones_overwritten_public']} "
+                                      "guard zone(s) overwritten"))
+                lo = llvm_output(rep, "evaluate_public")
+                if not same(lo, mout["evaluate"], True):
+                    fails.append(fail("llvm-differs-from-ir:evaluate-through-tensor-method", f"{d}: TensorMethod {lo} vs machine {mout['evaluate']}"))
+                labels.add("evaluate_through_tensor_method")
         loops = "contraction" in labels or any(s > 0 for s in case["sizes"].values())
         if has_float_reassociation(fns["evaluate"]):
             labels.add("right_nested_float_expression")
@@ -308,7 +358,7 @@ def process_kernel_batch(cases, stats, worker, sanitize=True, cc="clang-14"):
 INTV = ["x0", "x1", "x2", "x3"]
 FLTV = ["f0", "f1", "f2", "f3"]
 INT_LITS = [0, 1, 2, 3, -1, 7]
-FLT_LITS = [0.0, 1.0, 0.5, 2.5, 0.1, -1.5, 1e16, 0.30000000000000004, 3.141592653589793, 1234567890123456.0, 5e-324]
+FLT_LITS = [0.0, 1.0, 0.5, 2.5, 0.1, -1.5, 1e16, 0.30000000000000004, 3.141592653589793, 1234567890123456.0, 5e-324, -0.0, 0.0]
 
 
 @st.composite
@@ -358,6 +408,14 @@ def ir_expr(draw, ty, depth):
     return [draw(st.sampled_from(["And", "Or"])), draw(ir_expr("bool", depth - 1)), draw(ir_expr("bool", depth - 1))]
 
 
+def flip_zero_literals(e):
+    if e[0] == "flt" and e[1] == 0.0:
+        import math
+
+        return ["flt", -0.0 if math.copysign(1.0, e[1]) > 0 else 0.0]
+    return [e[0]] + [flip_zero_literals(c) if isinstance(c, list) else c for c in e[1:]]
+
+
 @st.composite
 def ir_programs(draw, tier):
     """A program = list of slots; each slot is a statement pattern writing t->vals[4+k]."""
@@ -386,6 +444,10 @@ def ir_programs(draw, tier):
                 slot["op"] = draw(st.sampled_from(["Add", "Subtract", "Multiply"]))
                 slot["init"] = draw(ir_expr(ty, 1))
         slots.append(slot)
+        if len(slots) < 12 and "0.0" in json.dumps(slot["e"]) and draw(st.integers(0, 2)) == 0:
+            # the same statement once more with the sign of every zero literal flipped: the two expressions are equal as
+            # Python values (0.0 == -0.0) but not as programs - anything keyed on equality of trees confuses them
+            slots.append(dict(slot, e=flip_zero_literals(slot["e"])))
     envs = []
     for _ in range(5):
         envs.append({
